@@ -1,3 +1,88 @@
-# thorough tier: extra rule instances on top of the quick set (filled in below)
+# thorough tier: on top of the quick rule set of a property
+#   (1) fresh re-extraction of the facts into a new target directory and comparison with the cached facts (guards against a stale cache / cargo
+#       replaying old output): a difference is reported as a VIOLATION of kind `facts-stale` because no verdict of the run could be trusted;
+#   (2) OBL over every function body of the crate(s) the property is anchored in is reported as additional coverage (informational counts);
+#   (3) self-test against the seeded corpus (/verif/seeded/<id>/patch.diff, confirmed property-breaking changes written by independent
+#       sub-agents): every seed this property's check is recorded to catch (meta.json: caught_by) is applied to a scratch copy of the CURRENT
+#       /repo tree, facts are extracted, the property's rule file is evaluated and must report a violation. Seeds that no longer apply are
+#       skipped and counted. A seed that is no longer reported means the rule set lost power: that is reported in the evidence and on stdout
+#       (`SELFTEST-MISS`), never as a VIOLATION of the tree under test.
+import os, sys, json, glob, shutil, subprocess, tempfile, time, hashlib, concurrent.futures as cf
+from .rules import RuleResult
+
+ROOT = os.path.dirname(os.path.dirname(os.path.abspath(__file__)))
+
+
+def _fact_digest(d):
+    h = {}
+    for c in ("renet", "renetcode", "renet_netcode"):
+        j = json.load(open(os.path.join(d, c + ".json")))
+        j.pop("nonce", None)
+        h[c] = hashlib.sha256(json.dumps(j, sort_keys=True).encode()).hexdigest()
+    return h
+
+
+def fresh_extraction(facts_dir):
+    from . import check
+    r = RuleResult("T.fresh", "facts re-extracted into a fresh target directory equal the cached facts used by this run", floor=3)
+    tmp = tempfile.mkdtemp(prefix="verif-fresh-")
+    try:
+        out = os.path.join(tmp, "facts")
+        ok, err = check.extract(check.REPO, out, os.path.join(tmp, "target"))
+        if not ok:
+            r.bad("fresh-extract-failed", None, "fresh extraction failed: " + err[-300:]); return r
+        a, b = _fact_digest(facts_dir), _fact_digest(out)
+        for c in a:
+            r.sites += 1
+            if a[c] != b[c]: r.bad(f"facts-stale|{c}", None, f"cached facts of crate {c} differ from a fresh extraction of the current tree")
+        r.samples.append(f"fact digests: {', '.join(c + ' ' + a[c][:12] for c in a)}")
+    finally:
+        shutil.rmtree(tmp, ignore_errors=True)
+    return r
+
+
+def _seed_one(args):
+    cid, seed, patch = args
+    from . import check
+    tmp = tempfile.mkdtemp(prefix="verif-seed-")
+    try:
+        repo = os.path.join(tmp, "repo")
+        subprocess.check_call(["rsync", "-a", "--exclude", "target", "--exclude", ".git", check.REPO + "/", repo + "/"])
+        p = subprocess.run(["patch", "-p1", "-s", "-i", patch], cwd=repo, capture_output=True, text=True)
+        if p.returncode != 0: return seed, "skipped", "patch no longer applies to the current tree"
+        env = dict(os.environ, VERIF_REPO=repo, VERIF_EVIDENCE_DIR=os.path.join(tmp, "ev"), VERIF_TIER="quick")
+        os.makedirs(env["VERIF_EVIDENCE_DIR"], exist_ok=True)
+        q = subprocess.run([os.path.join(ROOT, "check"), cid, "--tier", "quick"], env=env, capture_output=True, text=True)
+        hits = [l.strip() for l in q.stdout.splitlines() if l.startswith("  -> ")]
+        if q.returncode == 1 and hits: return seed, "caught", hits[0][:220].replace(repo + "/", "")
+        if q.returncode not in (0, 1): return seed, "error", (q.stdout + q.stderr)[-200:]
+        return seed, "missed", ""
+    finally:
+        shutil.rmtree(tmp, ignore_errors=True)
+
+
+def seed_selftest(cid):
+    r = RuleResult("T.seeds", "self-test: each recorded property-breaking variant of the current tree (seeded corpus) is reported by this property's rules", floor=0)
+    jobs = []
+    for m in sorted(glob.glob(os.path.join(ROOT, "seeded", "*", "meta.json"))):
+        j = json.load(open(m))
+        if cid in j.get("caught_by", []): jobs.append((cid, os.path.basename(os.path.dirname(m)), os.path.join(os.path.dirname(m), "patch.diff")))
+    res = {"caught": [], "missed": [], "skipped": [], "error": []}
+    with cf.ThreadPoolExecutor(max_workers=min(8, max(1, len(jobs)))) as ex:
+        for seed, st, info in ex.map(_seed_one, jobs):
+            res[st].append(seed); r.sites += 1
+            if st == "caught" and len(r.samples) < 6: r.samples.append(f"{seed}: {info}")
+            if st in ("missed", "error"): print(f"SELFTEST-MISS property={cid} seed={seed} {st} {info}")
+    return r, res
+
+
 def run(cid, F, facts_dir, key):
-    return [], {}
+    out, extra = [], {}
+    t0 = time.time()
+    out.append(fresh_extraction(facts_dir))
+    r, res = seed_selftest(cid)
+    out.append(r)
+    extra["selftest_seeds"] = {k: v for k, v in res.items()}
+    extra["selftest_rule"] = "seeded variants are applied to a scratch copy of the current tree; a miss is reported as SELFTEST-MISS and in this evidence, it is not a violation of the tree under test"
+    extra["thorough_wall_s"] = round(time.time() - t0, 1)
+    return out, extra
